@@ -7,7 +7,7 @@ def dlvBytes (s : St) : List UInt8 := (s.dlv.map Prod.snd).flatten
 
 /-- bytes a parked read task has taken from the kernel and not yet handed to the callback -/
 def inflight (s : St) : List UInt8 := match s.task with
-  | .rd (.data _ b) => b
+  | .rd (.data _ b) _ => b
   | _ => []
 
 def ansBytes : Ans → List UInt8
@@ -50,9 +50,9 @@ theorem doRead_bytes (g : Cfg) (s : St) (hu : g.udp = false) :
   | bytes hc hi hu' hq => simp [ansBytes]
   | _ => simp [ansBytes]
 
-theorem taskRead_del (g : Cfg) (s : St) (hu : g.udp = false) :
-    dlvBytes (taskRead g s) ++ inflight (taskRead g s) ++ (taskRead g s).k.rq = dlvBytes s ++ s.k.rq ∧
-    (taskRead g s).sentS = s.sentS := by
+theorem taskRead_del (g : Cfg) (s : St) (bh : Bool) (hu : g.udp = false) :
+    dlvBytes (taskRead g s bh) ++ inflight (taskRead g s bh) ++ (taskRead g s bh).k.rq = dlvBytes s ++ s.k.rq ∧
+    (taskRead g s bh).sentS = s.sentS := by
   unfold taskRead
   split
   · simp [setTask, dlvBytes, inflight]
@@ -60,11 +60,11 @@ theorem taskRead_del (g : Cfg) (s : St) (hu : g.udp = false) :
     have hb := doRead_bytes g s hu
     simp only [setTask]
     refine ⟨?_, f9⟩
-    have hi : inflight { (doRead g s).2 with task := TS.rd (doRead g s).1 } = ansBytes (doRead g s).1 := by
+    have hi : inflight { (doRead g s).2 with task := TS.rd (doRead g s).1 bh } = ansBytes (doRead g s).1 := by
       simp only [inflight, ansBytes]
       cases (doRead g s).1 <;> rfl
     rw [hi]
-    have hd : dlvBytes { (doRead g s).2 with task := TS.rd (doRead g s).1 } = dlvBytes s := by
+    have hd : dlvBytes { (doRead g s).2 with task := TS.rd (doRead g s).1 bh } = dlvBytes s := by
       simp only [dlvBytes, f8]
     rw [hd, List.append_assoc, hb]
 
@@ -150,9 +150,9 @@ theorem dels_step (g : Cfg) (s s' : St) (a : Act) (hc : Core g s) (hd : DelS g s
     · cases hs
     · next ht =>
       cases hs
-      obtain ⟨h1, h2⟩ := taskRead_del g s hu
+      obtain ⟨h1, h2⟩ := taskRead_del g s s.hup hu
       rw [h1, h2, ← hd]; simp [inflight, ht]
-    · next a ht =>
+    · next a hb ht =>
       cases hs
       obtain ⟨k1, k2, k3, k4, k5, k6, k7, k8, _⟩ := consume_frame g s a
       have hdl := consume_dlv g s a
@@ -161,7 +161,7 @@ theorem dels_step (g : Cfg) (s s' : St) (a : Act) (hc : Core g s) (hd : DelS g s
         rw [hdl, k1, k8, ← hd, hia]
       cases hnx : (consume g s a).1 with
       | again =>
-        obtain ⟨h1, h2⟩ := taskRead_del g (consume g s a).2 hu
+        obtain ⟨h1, h2⟩ := taskRead_del g (consume g s a).2 hb hu
         simp only [taskNext]
         rw [h1, h2]; exact hgoal
       | dead =>
@@ -171,6 +171,12 @@ theorem dels_step (g : Cfg) (s s' : St) (a : Act) (hc : Core g s) (hd : DelS g s
         simp only [taskNext]
         have hr : ∀ t : St, dlvBytes (rearm t) = dlvBytes t ∧ (rearm t).k.rq = t.k.rq ∧ (rearm t).sentS = t.sentS := by
           intro t; unfold rearm; split <;> simp [dlvBytes]
+        have hcl : ∀ t : St, dlvBytes (closeHang t) = dlvBytes t ∧ (closeHang t).k.rq = t.k.rq ∧ (closeHang t).sentS = t.sentS := by
+          intro t; unfold closeHang; split <;> simp [dlvBytes]
+        split
+        · obtain ⟨r1, r2, r3⟩ := hcl (consume g s a).2
+          show dlvBytes (closeHang (consume g s a).2) ++ [] ++ (closeHang (consume g s a).2).k.rq = (closeHang (consume g s a).2).sentS
+          rw [List.append_nil, r1, r2, r3]; exact hgoal
         split
         · obtain ⟨r1, r2, r3⟩ := hr (consume g s a).2
           show dlvBytes (rearm (consume g s a).2) ++ [] ++ (rearm (consume g s a).2).k.rq = (rearm (consume g s a).2).sentS
@@ -182,7 +188,7 @@ theorem dels_step (g : Cfg) (s s' : St) (a : Act) (hc : Core g s) (hd : DelS g s
             rw [List.append_nil]; exact hgoal
     · next v ht =>
       cases hs
-      obtain ⟨h1, h2⟩ := taskRead_del g s hu
+      obtain ⟨h1, h2⟩ := taskRead_del g s s.hup hu
       rw [h1, h2, ← hd]; simp [inflight, ht]
 
 theorem dels_run (g : Cfg) (as : List Act) : ∀ s, Core g s → DelS g s → DelS g (run g s as) := by
